@@ -374,7 +374,8 @@ package parser
 //@   ensures[C01] mutex-released: !locked(l.mu) && !locked(l.heredoc.mu)
 //@   site COL = call ast.(Pos).Col
 //@   site LINE = call parser.(*lexer).print
-//@   ensures[C07 C08] delimiter-line-is-a-whole-line-equal-to-the-delimiter: result ==> site(COL) && siteret(COL) == 1 && site(LINE) && siteret(LINE) == delim
+//@   site TABS = call strings.TrimLeft
+//@   ensures[C07 C08] delimiter-line-is-a-whole-line-equal-to-the-delimiter: result ==> site(COL) && siteret(COL) == 1 && site(LINE) && (siteret(LINE) == delim || (r.Op == "<<-" && site(TABS) && sitearg(TABS, 0) == siteret(LINE) && sitearg(TABS, 1) == "\t" && siteret(TABS) == delim))
 //@   ensures[C08] partition: result ==> r.Heredoc == old(l.word)[:i] && r.Delim == old(l.word)[i:] && 0 <= i && i < old(len(l.word)) && len(l.word) == 0
 //@   ensures[C08] nothing-moved: !result ==> l.word == old(l.word)
 //@   loop "for i := len(l.word) - 1; i >= 0; i--" invariant i < len(l.word)
